@@ -185,8 +185,10 @@ PLANS = {
                         "TLC, Json module, harness recording"],
     },
     "C14": {
-        "mc": {"quick": [{"module": "MCLayout", "cfg": "cfg/MCLayout.quick.cfg"}],
-               "thorough": [{"module": "MCLayout", "cfg": "cfg/MCLayout.thorough.cfg", "timeout": 3400}]},
+        "mc": {"quick": [{"module": "MCLayout", "cfg": "cfg/MCLayout.quick.cfg"},
+                         {"module": "MCCursor", "cfg": "cfg/MCCursor.quick.cfg"}],
+               "thorough": [{"module": "MCLayout", "cfg": "cfg/MCLayout.thorough.cfg", "timeout": 3400},
+                            {"module": "MCCursor", "cfg": "cfg/MCCursor.thorough.cfg", "timeout": 3400}]},
         "drive": {"quick": [{"args": ["layout", "-exh", "4", "-n", "3000", "-depth", "4", "-seed", "{seed}"]}],
                   "thorough": [{"args": ["layout", "-exh", "5", "-n", "60000", "-depth", "5", "-seed", "{seed}"]}]},
         "judge": {"module": "JudgeLayout", "cfg": "JudgeLayout.cfg"},
@@ -206,10 +208,12 @@ PLANS = {
     "C06": {
         "mc": {"quick": [{"module": "MCParse", "cfg": "cfg/MCParse.quick.cfg"},
                          {"module": "MCParse", "cfg": "cfg/MCParse.guards.quick.cfg", "emit_cases": "guards.txt"},
-                         {"module": "MCEval", "cfg": "cfg/MCEval.C06.quick.cfg"}],
+                         {"module": "MCEval", "cfg": "cfg/MCEval.C06.quick.cfg"},
+                         {"module": "MCCursor", "cfg": "cfg/MCCursor.quick.cfg"}],
                "thorough": [{"module": "MCParse", "cfg": "cfg/MCParse.thorough.cfg", "timeout": 3400},
                             {"module": "MCParse", "cfg": "cfg/MCParse.guards.thorough.cfg", "emit_cases": "guards.txt", "timeout": 3400},
-                            {"module": "MCEval", "cfg": "cfg/MCEval.C06.thorough.cfg", "timeout": 3400}]},
+                            {"module": "MCEval", "cfg": "cfg/MCEval.C06.thorough.cfg", "timeout": 3400},
+                            {"module": "MCCursor", "cfg": "cfg/MCCursor.thorough.cfg", "timeout": 3400}]},
         "drive": {"quick": [{"args": ["total", "-cases", "{S}/guards.txt", "-exh", "4", "-n", "3000", "-depth", "4", "-seed", "{seed}", "-tier", "quick"]}],
                   "thorough": [{"args": ["total", "-cases", "{S}/guards.txt", "-exh", "5", "-n", "60000", "-depth", "5", "-seed", "{seed}", "-tier", "thorough"],
                                 "timeout": 3400}]},
